@@ -13,9 +13,9 @@ PID = "C04"
 LEVEL = "exploration"
 RULE = (
     "Forms: every weekday spelling; days of month 1-31 as 'N.', 'N<ordinal suffix>', 'the Nth', 'am N.'; all 366 day+month pairs as 'd.m.', 'd. <Monat>', '<Month> d', "
-    "'dth of <Month>' (every month spelling for boundary days); every part-of-day spelling.  Product A: all forms x EDGE_TS; product B: canonical forms x every reference date "
+    "'dth of <Month>' (every month spelling for boundary days); every part-of-day spelling; weekday + day of month ('monday 5th', 'montag 5.') for all 7 x 31 pairs.  Product A: all forms x EDGE_TS; product B: canonical forms x every reference date "
     "of the cycle x times of day.  Oracle (refcal search): weekday/day-of-month -> first matching date strictly after the reference date; day+month -> first matching date on or "
-    "after it (skipping months/years that lack the day); part of day -> today if its start hour is still ahead of the reference minute, else tomorrow.  Equivalently: result >= "
+    "after it (skipping months/years that lack the day); weekday+day of month -> first date on or after today carrying both; part of day -> today if its start hour is still ahead of the reference minute, else tomorrow.  Equivalently: result >= "
     "today, written fields preserved, no matching date strictly between.  Non-trivial = expected date != reference date + 1 (i.e. the search had to look further) or the form "
     "is a part of day; distinct = distinct (text, ts)."
 )
@@ -42,6 +42,14 @@ def expected(kind, val, ts):
     if kind == "doy":
         e = refcal.next_doy_from(d, val[0], val[1])
         return T(e.year, e.month, e.day)
+    if kind == "dowdom":
+        wd, dom = val
+        c = d
+        for _ in range(366 * 12):
+            if c.weekday() == wd and c.day == dom:
+                return T(c.year, c.month, c.day)
+            c = refcal.add_days(c, 1)
+        raise AssertionError
     if kind == "pod":
         from ctparse.types import pod_hours
 
@@ -94,6 +102,15 @@ def _forms(tier):
                 canon.append(("doy", (m, d), "{}.{}.".format(d, m), "d.m."))
             if d in (28, 29, 30, 31):
                 canon.append(("doy", (m, d), "{} {}".format(en, d), "Month d"))
+    # weekday + day of month ('monday 5th'): first date on or after today with that weekday AND day of month
+    for wd in range(7):
+        for n in range(1, 32):
+            en = vocab.EN_DOW[wd]
+            de = vocab.DE_DOW[wd]
+            allf.append(("dowdom", (wd, n), "{} {}".format(en, _ord(n)), "<dow> Nth"))
+            allf.append(("dowdom", (wd, n), "{} {}.".format(de, n), "<dow> N."))
+            if n in (1, 13, 28, 29, 30, 31):
+                canon.append(("dowdom", (wd, n), "{} {}".format(en, _ord(n)), "<dow> Nth"))
     for name, alts in vocab.pods():
         for a in alts:
             allf.append(("pod" if _single_reading(a) else "pod_ambiguous", name, a, "<pod:%s>" % a))
@@ -151,7 +168,7 @@ def plan(tier, seed):
 def run_case(case):
     prod, kind, val, text, key, ts_s = case
     ts = ts_of(ts_s)
-    if kind == "doy":
+    if kind in ("doy", "dowdom"):
         val = tuple(val)
     if kind == "pod_ambiguous":
         got = res_obs(parse(text, ts))
@@ -179,6 +196,8 @@ def run_case(case):
                     why = "day_month_not_preserved"
                 elif kind == "dow" and g.weekday() != val:
                     why = "weekday_not_preserved"
+                elif kind == "dowdom" and (g.weekday(), g.day) != val:
+                    why = "weekday_or_day_not_preserved"
                 elif g > e_date:
                     why = "not_nearest"
                 elif g < e_date:
